@@ -1280,3 +1280,19 @@ def alias_reference(cls_short=None):
                 if nm in ("x", "lo") and not re.search(r'["`]' + nm + r'["`]', head):
                     return f"{qc.__name__}: {label}: {sql!r} refers to the alias {nm!r} which the select list does not define"
     return None
+
+
+def returning_foreign():
+    """C14: RETURNING a term that mentions a table which is neither the target nor a source is rejected; terms over
+    the target / the sources are accepted"""
+    from . import PostgreSQLQuery, Table
+    abc, other, src = Table("abc"), Table("other"), Table("src")
+    cases = [
+        ("foreign field", lambda: PostgreSQLQuery.into(abc).insert(1).returning(other.id), "QueryException"),
+        ("target + foreign in one term", lambda: PostgreSQLQuery.into(abc).insert(1).returning(abc.id + other.id), "QueryException"),
+        ("update: target + foreign", lambda: PostgreSQLQuery.update(abc).set("a", 1).returning(abc.id + other.id), "QueryException"),
+        ("update from: source is fine", lambda: PostgreSQLQuery.update(abc).from_(src).set("a", src.a).returning(abc.id + src.id), None),
+        ("target", lambda: PostgreSQLQuery.into(abc).insert(1).returning(abc.id + 1), None),
+        ("delete target", lambda: PostgreSQLQuery.from_(abc).delete().returning(abc.id), None),
+    ]
+    return _expect(cases)
